@@ -163,7 +163,36 @@ pub fn run_solver_case(case: &SolverCase) -> SolverCaseRun {
                 push(i, cfg, judge::judge_c04(m, &rows, res));
             }
             "C05" => push(i, cfg, judge::judge_c05(m, truth, cfg, res)),
-            "C15" => push(i, cfg, judge::judge_c15(m, truth, cfg, res)),
+            "C15" => {
+                let mut fs = judge::judge_c15(m, truth, cfg, res);
+                // a crash that goes away when only the VALUE of a never-firing limit is
+                // changed is caused by that value (e.g. a deadline that cannot be
+                // represented): every setting of the limit is in the property's quantifier
+                if let Outcome::Panic { msg } = &res.outcome {
+                    if !judge::interrupted(res)
+                        && cfg.gap.is_valid()
+                        && cfg.limit != solvers::LimitSpec::Unset
+                        && cfg.limit != solvers::LimitSpec::HUGE
+                    {
+                        let twin = RunCfg {
+                            limit: solvers::LimitSpec::HUGE,
+                            ..*cfg
+                        };
+                        let twin_res = solvers::run(m, &twin);
+                        if !matches!(twin_res.outcome, Outcome::Panic { .. }) {
+                            fs.push(judge::Finding {
+                                class: "limit-value-panic".into(),
+                                detail: format!(
+                                    "limit {:?} never fired, yet the call panicked ({msg}); with a limit of 2^40 s the same call returns {}",
+                                    cfg.limit,
+                                    twin_res.outcome.tag()
+                                ),
+                            });
+                        }
+                    }
+                }
+                push(i, cfg, fs);
+            }
             other => panic!("unknown solver-world property {other}"),
         }
     }
